@@ -221,11 +221,19 @@ pub fn json_str(s: &str, ascii_only: bool) -> String {
             '\n' => o.push_str("\\n"),
             '\r' => o.push_str("\\r"),
             '\t' => o.push_str("\\t"),
+            '\u{8}' if ascii_only => o.push_str("\\b"),
+            '\u{c}' if ascii_only => o.push_str("\\f"),
+            // (the solidus may be escaped, hex digits may be upper case: all legal JSON)
+            '/' if ascii_only => o.push_str("\\/"),
             c if (c as u32) < 0x20 => o.push_str(&format!("\\u{:04x}", c as u32)),
             c if ascii_only && !c.is_ascii() => {
                 let mut buf = [0u16; 2];
                 for u in c.encode_utf16(&mut buf) {
-                    o.push_str(&format!("\\u{:04x}", u));
+                    if *u % 2 == 0 {
+                        o.push_str(&format!("\\u{:04x}", u));
+                    } else {
+                        o.push_str(&format!("\\u{:04X}", u));
+                    }
                 }
             }
             c => o.push(c),
@@ -250,7 +258,8 @@ pub fn json_object(pairs: &[(String, String)], spaced: bool) -> String {
             o.push(',');
         }
         if spaced {
-            o.push_str("\n  ");
+            // every kind of JSON white space
+            o.push_str(if i % 2 == 0 { "\n  " } else { "\r\n\t " });
         }
         // JSON allows escapes in keys as in any string: in the spaced style every key of even length
         // gets its first character written as \uXXXX ("\u006dappings", "\u0073ections", ...)
